@@ -1,7 +1,7 @@
 (* Crash/ExamplesCatchUp.v — checked instances for the catch-up theorem (Crash/ProofsCatchUp.v) on the example history. *)
 From Coq Require Import List NArith Bool Lia.
 From Verif Require Import Crash.Model Crash.ProofsStore Crash.ProofsInv Crash.ProofsImport Crash.ProofsCrash Crash.Examples
-  Crash.ProofsEqv Crash.ProofsShape Crash.ProofsResumeAll Crash.ProofsResume Crash.ProofsFinalized Crash.ProofsQuality Crash.ProofsCatchUp.
+  Crash.ProofsEqv Crash.ProofsShape Crash.ProofsResumeAll Crash.ProofsResume Crash.ProofsFinalized Crash.ProofsQuality Crash.ProofsCatchUp Crash.ProofsDual.
 Import ListNotations.
 Open Scope N_scope.
 
@@ -40,3 +40,12 @@ Lemma ex_fork_diverges :
   stored (run ex_cfg ex_s0 ex_hist_fork) (bid 2 9) = false /\
   option_map (fun r => stored r (bid 2 9)) (resume ex_cfg true (crash ex_cfg ex_s0 ex_hist_fork 19) (skipn 4 ex_hist_fork)) = Some true.
 Proof. vm_compute. repeat split; auto; lia. Qed.
+
+(* the combined write sequence of block 3 (it becomes best): account batch, LOG, index batch, block bulk, quality, finalized *)
+Lemma ex_dual :
+  let s := run ex_cfg ex_s0 (firstn 2 ex_hist) in
+  becomes_best ex_cfg s (ex_blk 3 []) = true /\
+  map (fun x => match x with WLog => true | WMain _ => false end) (dual_steps ex_cfg s (ex_blk 3 [])) = [false; true; false; false; false; false] /\
+  stored (apply_writes s (mains (firstn 4 (dual_steps ex_cfg s (ex_blk 3 []))))) (bid 3 3) = true /\
+  stored (apply_writes s (mains (firstn 3 (dual_steps ex_cfg s (ex_blk 3 []))))) (bid 3 3) = false.
+Proof. vm_compute. repeat split. Qed.
